@@ -4,6 +4,7 @@ from __future__ import annotations
 import ast
 import itertools
 
+from .. import efg as _efg
 from ..pyfacts import AnalysisError, src
 from ..genfacts import GenFacts, GEN, ASM
 from ..consteval import Interp
@@ -177,7 +178,7 @@ def run(repo, chk):
         arm = F.arm_of(ev, len(ev) - 1)
         if not arm.startswith('ArrayLiteral') or p.outcome == 'raise':
             continue
-        conds = {e.text: e.truth for e in ev if e.kind == 'cond'}
+        conds = _efg.Conds(ev)
         if conds.get('el_type == DataType.BOOL') is not True:
             continue
         its = [e for e in ev if e.kind == 'iter']
@@ -245,7 +246,7 @@ def run(repo, chk):
         arms = [e.text for e in ev if e.kind == 'case']
         if arms and 'ast.ArrayLiteral' in arms[-1]:
             n3 += 1
-            conds = {e.text: e.truth for e in ev if e.kind == 'cond'}
+            conds = _efg.Conds(ev)
             dv = [src(e.value) for e in ev if e.kind == 'assign' and e.target == 'directive']
             if conds.get('initializer.type.el_type == DataType.BOOL'):
                 want = 'asm.ByteDirective(*map(asm.IntLiteral, self.pack_bools([bool(lit.data) for lit in values])))'
